@@ -27,10 +27,10 @@ type Arg struct {
 	Cb   *Callback
 }
 
-func aInt(i int) Arg       { return Arg{V: Int(i)} }
-func aVal(v Val) Arg       { return Arg{V: v} }
-func aCb(c *Callback) Arg  { return Arg{Cb: c} }
-func aOmit() Arg           { return Arg{Omit: true} }
+func aInt(i int) Arg      { return Arg{V: Int(i)} }
+func aVal(v Val) Arg      { return Arg{V: v} }
+func aCb(c *Callback) Arg { return Arg{Cb: c} }
+func aOmit() Arg          { return Arg{Omit: true} }
 func aIntP(p *int) Arg {
 	if p == nil {
 		return aOmit()
